@@ -24,6 +24,7 @@ from ..oracles import describe
 
 ID = 'C04'
 LEVEL = 'exploration'
+NEEDS_GPG = True
 RULE = ('each run = a line sequence (<= 40 lines) built from a well-formed cleartext-signed template or from scratch '
         'over the classes {signed-message header, signature header, signature end, other armor-like line, blank, armor '
         'header/base64 text, valid entry, dash-escaped entry, dash-escaped armor line, junk} with 0-3 channel faults, '
